@@ -309,10 +309,14 @@ type World struct {
 	App  *ics20
 	MW   entrypoint.IBCMiddleware
 	Fee  *actionctrl.FeeController
+	swap *swapStub
 }
 
 // NewWorld wires the module. faults: every fallible environment call draws a failure bit.
-func NewWorld(faults bool) *World {
+func NewWorld(faults bool) *World { return newWorldWith(faults, false) }
+
+// newWorldWith: withSwap additionally registers a recording stub controller under ACTION_SWAP.
+func newWorldWith(faults, withSwap bool) *World {
 	w := &World{}
 	ctx, svc := verif.NewEnv()
 	w.Ctx = verif.SDKContext(ctx)
@@ -335,7 +339,12 @@ func NewWorld(faults bool) *World {
 	must(w.K.SetForwardingControllers(cc, hc, ic))
 	w.Fee, err = actionctrl.NewFeeController(nopLogger{}, w.Ev, w.L)
 	must(err)
-	must(w.K.SetActionControllers(w.Fee))
+	if withSwap {
+		w.swap = &swapStub{}
+		must(w.K.SetActionControllers(w.Fee, w.swap))
+	} else {
+		must(w.K.SetActionControllers(w.Fee))
+	}
 	ia, err := adapterctrl.NewIBCAdapter(cdc, nopLogger{})
 	must(err)
 	must(w.K.SetAdapterControllers(ia))
